@@ -110,11 +110,15 @@ class Ctx:
         self.pool = crs_pool()
         self.byname = {p[0]: p for p in self.pool}
 
-    def judge_mismatch(self, point, res, exc, witness, cls, sig, want_type=None):
+    def judge_mismatch(self, point, res, exc, witness, cls, sig, want_type=None, shapely_exc=None):
         from odc.geo.crs import CRSMismatchError
 
         want_type = want_type or CRSMismatchError
         ok = isinstance(exc, ValueError) and isinstance(exc, want_type)
+        if not ok and shapely_exc is not None and exc is not None and type(exc) is type(shapely_exc):
+            # GEOS rejects these raw shapes whatever their CRS (e.g. collections): nothing was computed, nothing was mixed
+            self.mon.skip(point, "shapely rejects the raw shapes")
+            return
         key = "mixed-crs-accepted" if exc is None else "mixed-crs-wrong-exception"
         self.mon.check(ok, point, lambda: {**witness, "result": repr(res)[:200], "exc": exc}, key=key, cls=cls, sig=sig, sample=witness)
 
@@ -134,9 +138,9 @@ def do_binary(ctx: Ctx, op: str, t1: str, t2: str, k1: str, k2: str, shp) -> Non
     wit = {"op": op, "crs": [t1, t2], "kinds": [k1, k2]}
     res, exc = call(getattr(a, op), b)
     pt = f"Geometry.{op}"
-    if c1 != c2:
-        return ctx.judge_mismatch(pt, res, exc, wit, cls, sig)
     want, wexc = call(getattr(shp[k1], op), shp[k2])
+    if c1 != c2:
+        return ctx.judge_mismatch(pt, res, exc, wit, cls, sig, shapely_exc=wexc)
     if wexc is not None:
         return mon.check(exc is not None and type(exc) is type(wexc), pt, lambda: {**wit, "shapely_exc": wexc, "exc": exc, "result": repr(res)[:100]}, key="exception-parity", cls=cls, sig=sig)
     if exc is not None:
@@ -160,9 +164,9 @@ def do_split(ctx: Ctx, t1, t2, k1, k2, shp) -> None:
     a, b = geoms_for((t1, t2), (k1, k2), shp, ctx)
     cls, sig, wit = pair_class(c1, c2), hsig("split", t1, t2, k1, k2), {"op": "split", "crs": [t1, t2], "kinds": [k1, k2]}
     res, exc = call(lambda: list(a.split(b)))
-    if c1 != c2:
-        return ctx.judge_mismatch("Geometry.split", res, exc, wit, cls, sig)
     want, wexc = call(lambda: list(shapely.ops.split(shp[k1], shp[k2]).geoms))
+    if c1 != c2:
+        return ctx.judge_mismatch("Geometry.split", res, exc, wit, cls, sig, shapely_exc=wexc)
     if wexc is not None:
         return mon.check(exc is not None and type(exc) is type(wexc), "Geometry.split", lambda: {**wit, "shapely_exc": wexc, "exc": exc}, key="exception-parity", cls=cls, sig=sig)
     if exc is not None:
@@ -190,8 +194,6 @@ def do_nary(ctx: Ctx, op: str, tags, kinds, shp) -> None:
     feed = (lambda: iter(gs)) if op != "common_crs" and len(gs) % 2 else (lambda: list(gs))
     res, exc = call(getattr(G, op), feed())
     pt = f"geom.{op}"
-    if differ:
-        return ctx.judge_mismatch(pt, res, exc, wit, cls, sig)
     raw = [shp[k] for k in kinds]
     if op == "multigeom":
         want, wexc = call(G._multigeom, raw)
@@ -206,6 +208,8 @@ def do_nary(ctx: Ctx, op: str, tags, kinds, shp) -> None:
         want, wexc = call(red)
     else:
         want, wexc = None, None
+    if differ:
+        return ctx.judge_mismatch(pt, res, exc, wit, cls, sig, shapely_exc=wexc)
     if wexc is not None:
         return mon.check(exc is not None and type(exc) is type(wexc), pt, lambda: {**wit, "shapely_exc": wexc, "exc": exc}, key="exception-parity", cls=cls, sig=sig)
     if exc is not None:
